@@ -117,6 +117,16 @@ class Check(PropertyCheck):
                 for n in range(0, ex_len + 1):
                     for seq in itertools.product(ops, repeat=n):
                         cases.append({"table": tbl, "init": (0, []), "ops": list(seq)})
+        # a further table scan (start-up after a restart of the application) after accepted subscribe / unsubscribe calls: an
+        # unsubscribe leaves (group, endpoint 0) in its slot, so the table now holds stale ids and repeated ids
+        okops = [(k, g, 0) for g in GROUPS for k in ("sub", "unsub")]
+        for size in (2, 3):
+            for tbl in initial_tables(size):
+                for n in (2, 3) if tier == "quick" else (2, 3, 4):
+                    for seq in itertools.product(okops, repeat=n):
+                        if tier == "quick" and n == 3 and rng.random() < 0.7:
+                            continue
+                        cases.append({"table": tbl, "init": (0, []), "ops": list(seq) + [("init", 0, 0), ("sub", GROUPS[2], 0)]})
         # every rejection status of the family (some steer the library: index out of range, table full, busy ...): a
         # rejected write leaves the free indices as they were, whatever the status; legacy and unified (v14) families
         for sl in (False, True):
